@@ -170,3 +170,24 @@ def mode_guard_consts(f: Func, node: ast.AST) -> set:
                     out |= c
         cur = par
     return out
+
+
+def layout_agreement(ctx: Ctx, rule: str) -> None:
+    """reader and writer of every header section use the same primitives per record (sa/layout.py): the multisets of
+    (primitive kind, repeated?) collected from `_read` + helpers and from `write` + helpers are equal for the mandatory part and for every
+    record both sides know.  Decides the SHAPE of the layout (which fields, which widths, inside or outside the loops), not the counts."""
+    from .. import layout
+    n = 0
+    for cls in layout.SECTIONS:
+        c = ctx.prog.cls(cls, "archiveinfo")
+        rd, wr = c.methods.get("_read"), c.methods.get("write")
+        ctx.need(rd is not None and wr is not None, f"{cls}._read / {cls}.write not found")
+        diffs, rl, wl = layout.compare(ctx.prog, cls)
+        n += 1 + len([l for l in rl if l in wl])
+        if not diffs:
+            ctx.ok(rule, f"{cls}: reader and writer agree on the primitives of the mandatory part and of records {sorted(set(rl) & set(wl))}")
+        for lab, a, b in diffs:
+            ctx.fail(rule, rd, rd.node, f"{cls} record {lab}: the reader consumes [{layout.fmt(a)}] but the writer emits [{layout.fmt(b)}] "
+                     "(N NUMBER, Q 8 bytes, L 4 bytes, B byte, V bit vector, S UTF-16 string, R raw bytes, @x sub-section; * = repeated): a field is missing, has another "
+                     "width or sits on the other side of a loop on one side, so what py7zr writes is not what it reads back", construct=f"{cls} layout {lab}")
+    ctx.floor(rule, n, 15, "section records compared between reader and writer")
